@@ -198,8 +198,8 @@ Definition must_conflict (st : state) (q : query) : bool :=
          negb same
          || existsb (fun c => negb (c_ready c) && negb (kind_exempt (c_kind c)) && negb (is_ignored c ignore) && touches c [snap]) st
      | QExcl ignore =>
-         (* a new exclusive change is refused while any other change is in progress; recorded exception (KNOWN_FINDINGS
-            key new-exclusive-vs-refresh): an in-progress refresh-snap / revert-snap change that is not a snapd downgrade *)
+         (* a new exclusive change is refused while any other change is in progress (an ordinary refresh-snap /
+            revert-snap change included: repaired defect, fixed: line in KNOWN_FINDINGS) *)
          existsb (fun c => negb (c_ready c) && negb (is_ignored c ignore)) st
      end.
 
